@@ -260,4 +260,18 @@ theorem rdBody_batch (v : Nat) (now : Int) (typ : Nat) (stmts : List GStmt) (con
       if_neg g1, if_neg g2, eSER, eTS, e7]
     simp [rdOpt]
 
+/-- every message body is decoded to the request that was asked for -/
+theorem rdBody_w (v : Nat) (now : Int) (g : GReq) (body : Bytes) (hv1 : 1 ≤ v) (hv5 : v ≤ 5)
+    (hx : Expressible v (ask now g) = true) (hb : wBody v now g = .ok body) :
+    rdBody v (opcode g) (payloadOf g) body = some (ask now g, []) := by
+  cases g with
+  | startup opts => exact rdBody_startup v now opts body hx hb
+  | options => exact rdBody_options v now body hb
+  | authResponse d => exact rdBody_auth v now d body hx hb
+  | register l => exact rdBody_register v now l body hx hb
+  | query s p pl => exact rdBody_query v now s p pl body hv1 hv5 hx hb
+  | prepare s ks pl => exact rdBody_prepare v now s ks pl body hv5 hx hb
+  | execute id p pl => exact rdBody_execute v now id p pl body hv1 hv5 hx hb
+  | batch typ stmts cons ser dts tsv pl => exact rdBody_batch v now typ stmts cons ser dts tsv pl body hv5 hx hb
+
 end C03
